@@ -1,12 +1,509 @@
 """Alternate execution modes for C14: re-framing MITM, blocking API on
 baton-passed threads, AsyncStateMachine."""
 
+import errno
 import hashlib
+import socket
 
-from . import net
+from . import kernel, loop, mitm, net, nodes, threads, views
 
 
 def stream_digest(pipe, mode):
     """Digest of what the sender wrote in one direction."""
     data = bytes(pipe.sent_log)
     return hashlib.sha256(data).hexdigest()[:24] + ":%d" % len(data)
+
+
+# ---------------------------------------------------------------------------
+# re-framing of plaintext handshake records in flight
+
+def install_reframer(link, chooser, stats):
+    """Split / merge plaintext handshake records (type 22) in both directions
+    until the first ChangeCipherSpec or application-data-typed record of
+    that direction (after which type-22 records are encrypted)."""
+    m = mitm.RecordMitm(link, [], stats)
+    plain = {"c2s": True, "s2c": True}
+
+    def count(k):
+        stats[k] = stats.get(k, 0) + 1
+
+    def feed(dirn, data):
+        recs = m.parsers[dirn].feed(data)
+        out = bytearray()
+        i = 0
+        while i < len(recs):
+            typ, ver, body = recs[i]
+            m.seen[dirn].append(recs[i])
+            if typ in (20, 23):
+                plain[dirn] = False
+            if not plain[dirn] or typ != 22 or not body:
+                out += net.rec_bytes(typ, ver, body)
+                i += 1
+                continue
+            # merge with following plaintext handshake records of this batch
+            merged = bytes(body)
+            j = i + 1
+            while j < len(recs) and recs[j][0] == 22 and recs[j][1] == ver \
+                    and len(merged) + len(recs[j][2]) <= 16384 \
+                    and chooser.draw(3, "rf.merge") == 1:
+                merged += bytes(recs[j][2])
+                m.seen[dirn].append(recs[j])
+                j += 1
+                count("reframe_merge")
+            i = j
+            # split at drawn offsets
+            pieces = [merged]
+            nsplit = chooser.draw(4, "rf.nsplit")
+            for _ in range(nsplit):
+                k = chooser.draw(len(pieces), "rf.which")
+                p = pieces[k]
+                if len(p) < 2:
+                    continue
+                cut = 1 + chooser.draw(len(p) - 1, "rf.cut")
+                pieces[k:k + 1] = [p[:cut], p[cut:]]
+                count("reframe_split")
+            for p in pieces:
+                out += net.rec_bytes(22, ver, p)
+        return bytes(out)
+    link.c2s.mitm = lambda d: feed("c2s", d)
+    link.s2c.mitm = lambda d: feed("s2c", d)
+    return m
+
+
+# ---------------------------------------------------------------------------
+# blocking API on scheduled threads
+
+class BlockingSocket(object):
+    """Blocking-mode socket over Pipes for a worker thread of a Baton."""
+
+    def __init__(self, name, inp, out, sched, chooser, stats):
+        self.name = name
+        self.inp = inp
+        self.out = out
+        self.sched = sched
+        self.ch = chooser
+        self.stats = stats
+        self.closed = False
+
+    def _count(self, k):
+        self.stats[k] = self.stats.get(k, 0) + 1
+
+    def send(self, data):
+        if self.closed:
+            raise socket.error(errno.EBADF, "EBADF")
+        self.sched.yield_point()
+        n = len(data)
+        take = n
+        if n > 1:
+            v = self.ch.draw(4, self.name + ".bsend")
+            if v == 1:
+                take = 1
+            elif v == 2:
+                take = 1 + self.ch.draw(n - 1, self.name + ".bsendn")
+            if take < n:
+                self._count("partial_send")
+        self.out.write(data[:take])
+        return take
+
+    def sendall(self, data):
+        if self.closed:
+            raise socket.error(errno.EBADF, "EBADF")
+        self.sched.yield_point()
+        self.out.write(data)
+
+    def recv(self, n):
+        if self.closed:
+            raise socket.error(errno.EBADF, "EBADF")
+        self.sched.yield_point()
+        inp = self.inp
+        if not inp.readable():
+            self._count("blocked_recv")
+            self.sched.block_until(inp.readable)
+        if inp.avail == 0:
+            if inp.reset:
+                raise socket.error(errno.ECONNRESET, "ECONNRESET")
+            return b""
+        m = min(n, inp.avail)
+        take = m
+        v = self.ch.draw(5, self.name + ".brecv")
+        if v == 1:
+            take = 1
+        elif v == 2:
+            take = min(m, 5)
+        elif v == 3 and m > 1:
+            take = 1 + self.ch.draw(m, self.name + ".brecvn") % m
+        if take < m:
+            self._count("short_recv")
+        return inp.read(take)
+
+    def close(self):
+        if not self.closed:
+            self.closed = True
+            self.out.eof = True
+
+    def shutdown(self, how):
+        self.out.eof = True
+
+    def settimeout(self, v):
+        pass
+
+    def gettimeout(self):
+        return None
+
+    def setsockopt(self, *a):
+        pass
+
+    def getsockname(self):
+        return (self.name, 0)
+
+    def getpeername(self):
+        return ("peer", 0)
+
+
+def execute_sync(seed, sc, script, chooser):
+    """Same scenario through the blocking API, each endpoint on a real
+    thread; the Baton decides who runs at every socket call."""
+    from tlslite.tlsconnection import TLSConnection
+    kernel.reset_harness(seed)
+    from . import creds
+    creds.reset_keys()
+    stats = {}
+    sched = threads.Baton(chooser, watched=(), policy="random",
+                          max_steps=2000000, label="sync")
+    c2s = net.Pipe("c2s")
+    s2c = net.Pipe("s2c")
+    socks = {"c": BlockingSocket("c", s2c, c2s, sched, chooser, stats),
+             "s": BlockingSocket("s", c2s, s2c, sched, chooser, stats)}
+    nodes_ = {"c": kernel.Node("c", seed), "s": kernel.Node("s", seed)}
+    conns = {}
+    for w in "cs":
+        with nodes_[w]:
+            conns[w] = TLSConnection(socks[w])
+
+    class _P(nodes.Pair):
+        def __init__(self):
+            self.scen = sc
+            self.cset = nodes.make_settings(sc.get("cset"))
+            self.sset = nodes.make_settings(sc.get("sset"))
+
+            class E(object):
+                pass
+            self.c = E()
+            self.s = E()
+            self.c.conn = conns["c"]
+            self.s.conn = conns["s"]
+    pair = _P()
+    res = {"c": [], "s": []}
+    hs = {}
+    vw = {}
+
+    def blocking(gen):
+        r = None
+        for r in gen:
+            pass
+        return r
+
+    def worker(w):
+        def body():
+            out = loop.Outcome(("handshake", "client" if w == "c"
+                                else "server"))
+            try:
+                g = (pair.client_gen() if w == "c" else pair.server_gen())()
+                blocking(g)
+                out.kind = "ok"
+            except Exception as e:        # noqa
+                out.kind = "exc"
+                out.exc = e
+            hs[w] = out
+            vw[w] = views.view(conns[w]) if out.kind == "ok" else None
+            if out.kind != "ok":
+                return
+            # wait for the peer's handshake verdict only through the wire
+            for op in [o for o in script if o[0] == w]:
+                o = loop.Outcome(tuple(op[1:]))
+                try:
+                    if op[1] == "write":
+                        from . import scen as _scen
+                        conns[w].write(_scen.payload(
+                            1 if w == "c" else 2, op[2], op[3]))
+                        o.kind = "ok"
+                    elif op[1] == "read":
+                        o.value = conns[w].read(op[2], op[3])
+                        o.kind = "ok"
+                    elif op[1] == "close":
+                        conns[w].close()
+                        o.kind = "ok"
+                except Exception as e:    # noqa
+                    o.kind = "exc"
+                    o.exc = e
+                res[w].append(o)
+        return body
+    for w in "cs":
+        sched.spawn(w, worker(w), nodes_[w])
+    st = sched.run()
+    both_ok = all(hs.get(w) is not None and hs[w].kind == "ok" for w in "cs")
+    tr = {"hs": [hs["c"].sig() if "c" in hs else ("handshake", "pending"),
+                 hs["s"].sig() if "s" in hs else ("handshake", "pending")],
+          "status": ["idle" if st == "done" else st],
+          "ops": {"c": [], "s": []},
+          "view_c": vw.get("c"), "view_s": vw.get("s")}
+    if both_ok:
+        tr["status"].append("idle" if st == "done" else st)
+        for w in "cs":
+            tr["ops"][w] = [o.sig() for o in res[w]]
+    tr["wire"] = {"c2s": stream_digest(c2s, "sync"),
+                  "s2c": stream_digest(s2c, "sync")}
+    stats["thread_switch"] = sched.switches
+    tr["_stats"] = stats
+    tr["_steps"] = sched.steps
+    tr["_order"] = hashlib.sha256("".join(sched.order).encode()).hexdigest()
+    tr["_sim"] = None
+    return tr
+
+
+# ---------------------------------------------------------------------------
+# AsyncStateMachine
+
+def execute_asm(seed, sc, script, chooser):
+    """Same scenario with both endpoints driven through AsyncStateMachine;
+    reads are emulated record by record on top of outReadEvent()."""
+    from tlslite.integration.asyncstatemachine import AsyncStateMachine
+    sim = nodes.new_run(seed, chooser=chooser, max_steps=400000)
+    pair = nodes.Pair(sim, sc, policy="random",
+                      wb_budget=kernel.Budget(30),
+                      delay_budget=kernel.Budget(30))
+    stats = sim.stats
+
+    class ASM(AsyncStateMachine):
+        def __init__(self, ep):
+            AsyncStateMachine.__init__(self)
+            self.tlsConnection = ep.conn
+            self.ep = ep
+            self.chunks = []        # data handed out by outReadEvent
+            self.connected = False
+            self.closed_evt = False
+            self.write_done = False
+
+        def outConnectEvent(self):
+            self.connected = True
+
+        def outCloseEvent(self):
+            self.closed_evt = True
+
+        def outReadEvent(self, readBuffer):
+            self.chunks.append(bytes(readBuffer))
+
+        def outWriteEvent(self):
+            self.write_done = True
+
+    asm = {"c": ASM(pair.c), "s": ASM(pair.s)}
+    eps = {"c": pair.c, "s": pair.s}
+    hs = {}
+    res = {"c": [], "s": []}
+    q = {w: [o for o in script if o[0] == w] for w in "cs"}
+    cur = {"c": None, "s": None}       # (op, Outcome)
+    started = {"c": False, "s": False}
+    failed = {"c": False, "s": False}
+    vw = {}
+
+    def guarded(w, fn):
+        with eps[w].node:
+            return fn()
+
+    # start handshakes
+    for w in "cs":
+        out = loop.Outcome(("handshake", "client" if w == "c" else "server"))
+        out.kind = "pending"
+        hs[w] = out
+        try:
+            g = guarded(w, (pair.client_gen() if w == "c"
+                            else pair.server_gen()))
+            guarded(w, lambda: asm[w].setHandshakeOp(g))
+        except Exception as e:       # noqa
+            out.kind = "exc"
+            out.exc = e
+            failed[w] = True
+
+    def readable(w):
+        # a readiness-driven application cannot see bytes that tlslite's
+        # BufferedSocket has already pulled off the socket (read-ahead of
+        # >= 4096 bytes); the driver therefore also polls when that buffer is
+        # non-empty - see DESIGN.md, C14 notes
+        s = eps[w].sock
+        return s.closed or s.inp.readable() or \
+            len(eps[w].conn.sock._read_buffer) > 0
+
+    def emulate_read(w, op, out):
+        """Mirror readAsync(max, min) on the record chunks delivered so
+        far; returns True when the read is complete."""
+        a = asm[w]
+        mx, mn = op[2], op[3]
+        buf = a.__dict__.setdefault("rbuf", b"")
+        closed = a.__dict__.get("rclosed", False)
+        while len(buf) < mn and a.chunks and not closed:
+            c = a.chunks.pop(0)
+            if c == b"" and eps[w].conn.closed:
+                closed = True
+                break
+            buf += c
+        a.rbuf = buf
+        a.rclosed = closed
+        if len(buf) >= mn or closed or (eps[w].conn.closed and
+                                        not a.chunks):
+            if mx is None:
+                mx = len(buf)
+            out.value = buf[:mx]
+            a.rbuf = buf[mx:]
+            out.kind = "ok"
+            return True
+        return False
+
+    steps = 0
+    order = hashlib.sha256()
+    status = "idle"
+    while True:
+        steps += 1
+        if steps > 400000:
+            status = "cap"
+            break
+        acts = []
+        for w in "cs":
+            a = asm[w]
+            if failed[w]:
+                continue
+            if hs[w].kind == "pending":
+                if a.connected:
+                    hs[w].kind = "ok"
+                    vw[w] = views.view(eps[w].conn)
+            if hs[w].kind != "ok":
+                if a.wantsReadEvent() and readable(w):
+                    acts.append((w, "in_read"))
+                elif a.wantsWriteEvent():
+                    acts.append((w, "in_write"))
+                continue
+            # script processing (after own handshake)
+            if cur[w] is None and q[w]:
+                op = q[w][0]
+                if op[1] == "read":
+                    out = loop.Outcome(tuple(op[1:]))
+                    out.kind = "pending"
+                    cur[w] = (op, out)
+                    q[w].pop(0)
+                elif a.result is None:
+                    out = loop.Outcome(tuple(op[1:]))
+                    out.kind = "pending"
+                    cur[w] = (op, out)
+                    started[w] = False
+                    q[w].pop(0)
+            if cur[w] is not None and cur[w][0][1] in ("write", "close") \
+                    and not started[w]:
+                if a.result is None:
+                    acts.append((w, "start"))
+                elif a.wantsReadEvent() and readable(w):
+                    acts.append((w, "in_read"))
+                elif a.wantsWriteEvent():
+                    acts.append((w, "in_write"))
+                continue
+            if cur[w] is not None and cur[w][0][1] == "read":
+                op, out = cur[w]
+                if emulate_read(w, op, out):
+                    res[w].append(out)
+                    cur[w] = None
+                    acts.append((w, "noop"))
+                    continue
+            if a.wantsWriteEvent():
+                acts.append((w, "in_write"))
+            elif a.wantsReadEvent() and readable(w):
+                acts.append((w, "in_read"))
+            elif a.result is None and readable(w) and \
+                    not eps[w].conn.closed and \
+                    (cur[w] is not None and cur[w][0][1] == "read"):
+                acts.append((w, "in_read"))
+            elif cur[w] is not None and cur[w][0][1] == "read" and \
+                    eps[w].conn.closed:
+                acts.append((w, "noop"))
+        if not acts:
+            sim._deliver(force=True)
+            if any(p.in_flight() for l in sim.links for p in l.pipes()):
+                continue
+            again = False
+            for w in "cs":
+                if not failed[w] and (readable(w) and (
+                        asm[w].wantsReadEvent() or
+                        (cur[w] is not None and cur[w][0][1] == "read"
+                         and asm[w].result is None
+                         and not eps[w].conn.closed))):
+                    again = True
+            if again:
+                continue
+            pend = [w for w in "cs" if (cur[w] is not None or q[w] or
+                                       hs[w].kind == "pending")
+                    and not failed[w]]
+            status = "stuck" if pend else "idle"
+            break
+        w, act = acts[chooser.draw(len(acts), "asm.sched")] \
+            if len(acts) > 1 else acts[0]
+        order.update((w + act[:3]).encode())
+        stats["asm_event"] = stats.get("asm_event", 0) + 1
+        a = asm[w]
+        try:
+            if act == "in_read":
+                guarded(w, a.inReadEvent)
+            elif act == "in_write":
+                guarded(w, a.inWriteEvent)
+            elif act == "start":
+                op, out = cur[w]
+                started[w] = True
+                if op[1] == "write":
+                    from . import scen as _scen
+                    data = _scen.payload(1 if w == "c" else 2, op[2], op[3])
+                    guarded(w, lambda: a.setWriteOp(data))
+                elif op[1] == "close":
+                    guarded(w, a.setCloseOp)
+        except Exception as e:      # noqa
+            if hs[w].kind == "pending":
+                hs[w].kind = "exc"
+                hs[w].exc = e
+                failed[w] = True
+            elif cur[w] is not None:
+                cur[w][1].kind = "exc"
+                cur[w][1].exc = e
+                res[w].append(cur[w][1])
+                cur[w] = None
+            else:
+                # error surfaced by an implicit read: attribute it to the
+                # next scripted read
+                if q[w] and q[w][0][1] == "read":
+                    op = q[w].pop(0)
+                    out = loop.Outcome(tuple(op[1:]))
+                    out.kind = "exc"
+                    out.exc = e
+                    res[w].append(out)
+                else:
+                    failed[w] = True
+        # completion of write / close ops
+        if cur[w] is not None and cur[w][0][1] in ("write", "close") and \
+                started[w] and \
+                a.result is None and a.writer is None and a.closer is None:
+            cur[w][1].kind = "ok"
+            res[w].append(cur[w][1])
+            cur[w] = None
+        sim._deliver()
+    for w in "cs":
+        if hs[w].kind == "pending" and asm[w].connected:
+            hs[w].kind = "ok"
+    both_ok = hs["c"].kind == "ok" and hs["s"].kind == "ok"
+    tr = {"hs": [hs["c"].sig(), hs["s"].sig()], "status": [status],
+          "ops": {"c": [], "s": []},
+          "view_c": vw.get("c"), "view_s": vw.get("s")}
+    if both_ok:
+        tr["status"].append(status)
+        for w in "cs":
+            tr["ops"][w] = [o.sig() for o in res[w]]
+    tr["wire"] = {"c2s": stream_digest(pair.link.c2s, "asm"),
+                  "s2c": stream_digest(pair.link.s2c, "asm")}
+    tr["_stats"] = dict(stats)
+    tr["_steps"] = steps
+    tr["_order"] = order.hexdigest()
+    tr["_sim"] = None
+    return tr
